@@ -126,6 +126,8 @@ pub const OPS: &[(&str, &str, &str)] = &[
     ("dual_as_normalized", "DS", "NS"), ("dual_as_normalized", "DL", "NL"),
     // plain copies
     ("copy", "RS", "RS"), ("copy", "RL", "RL"), ("copy", "NS", "NS"), ("copy", "NL", "NL"), ("copy", "DS", "DS"), ("copy", "DL", "DL"),
+    // Clone::clone_from into the existing (used) destination
+    ("clone_from", "RS", "RS"), ("clone_from", "RL", "RL"), ("clone_from", "NS", "NS"), ("clone_from", "NL", "NL"), ("clone_from", "DS", "DS"), ("clone_from", "DL", "DL"),
 ];
 
 /// apply one operation: returns "ok" / "overflow"; `dst` is modified in place
@@ -252,6 +254,12 @@ pub fn apply(op: &str, src: &Obj, dst: &mut Obj) -> &'static str {
             *dst = *s;
             "ok"
         }
+        ("clone_from", Obj::RS(s), Obj::RS(d)) => { d.clone_from(s); "ok" }
+        ("clone_from", Obj::RL(s), Obj::RL(d)) => { d.clone_from(s); "ok" }
+        ("clone_from", Obj::NS(s), Obj::NS(d)) => { d.clone_from(s); "ok" }
+        ("clone_from", Obj::NL(s), Obj::NL(d)) => { d.clone_from(s); "ok" }
+        ("clone_from", Obj::DS(s), Obj::DS(d)) => { d.clone_from(s); "ok" }
+        ("clone_from", Obj::DL(s), Obj::DL(d)) => { d.clone_from(s); "ok" }
         _ => "unsupported",
     }
 }
